@@ -115,7 +115,10 @@ def build(pos, neg, ep, en, sc, ec, via, seed=0):
         roc(obj, nb_points=None)
         obj.pos, obj.neg = np.sort(np.asarray(pos)), np.sort(np.asarray(neg))
         return obj
-    s = Scores(pos, neg, **call_form(seed, dict(nb_easy_pos=ep, nb_easy_neg=en, score_class=sc, equal_class=ec)))
+    from . import gen as _gen
+
+    # counts read from an array are numpy integers of whatever width the array has: they mean the same number
+    s = Scores(pos, neg, **call_form(seed, dict(nb_easy_pos=_gen.int_form(seed // 11, ep), nb_easy_neg=_gen.int_form(seed // 13, en), score_class=sc, equal_class=ec)))
     if via == "queried_before":
         _warm(s, seed)
     return s
